@@ -52,10 +52,11 @@ func ruleStableSort(c *Ctx) *RuleResult {
 }
 
 // B-INDEX: non-constant indexing / slicing in the evaluation half.
-//   guarded:  the index is the counter of a range loop over the same slice, or
-//             the access is dominated by explicit 0 <= i and i < len(x) tests;
-//   adapter:  Less/Swap index the field whose len is returned by Len;
-//   residual: listed and counted, not claimed (DESIGN §6).
+//
+//	guarded:  the index is the counter of a range loop over the same slice, or
+//	          the access is dominated by explicit 0 <= i and i < len(x) tests;
+//	adapter:  Less/Swap index the field whose len is returned by Len;
+//	residual: listed and counted, not claimed (DESIGN §6).
 func ruleBounds(c *Ctx) *RuleResult {
 	r := &RuleResult{Doc: "every non-constant index in the evaluation half is a range counter of the indexed slice, is dominated by 0 <= i < len tests, or follows the sort.Interface contract; the rest (slice stepping loops) is a declared residual", Floor: 20}
 	// the abstract interpreter decides computed indices on lists whose length it knows
